@@ -64,14 +64,40 @@ pub fn text_or_bed3(t: Option<Text>) -> (r: Text)
 pub open spec fn stored_text(t: Option<Text>) -> Seq<u8> {
     match t { Some(x) => x.bytes(), None => bed3() }
 }
-/// number of fields of the LAST declaration `parse_autosql` finds in the text (None: parse error or no
-/// declaration): abstract, the parser is units asql / asql_loops
-pub uninterp spec fn parsed_field_count(t: Seq<u8>) -> Option<usize>;
-/// the labelled block `'field_count: { parse_autosql(&autosql) .. declarations.pop() .. Some(decl.fields.len()) }`
+/// what `parse_autosql` finds in the text: the field count of every declaration, in order (None: parse error).
+/// Abstract here; the parser itself is units asql_loops / asql_tok.
+pub uninterp spec fn decl_counts(t: Seq<u8>) -> Option<Seq<int>>;
+/// the header's field count is that of the LAST declaration (helper `simple`/`object` declarations come first, the
+/// table that describes the rows is last); None: parse error or no declaration at all
+pub open spec fn parsed_field_count(t: Seq<u8>) -> Option<usize> {
+    match decl_counts(t) {
+        Some(c) => if c.len() > 0 && 0 <= c.last() <= usize::MAX { Some(c.last() as usize) } else { None },
+        None => None,
+    }
+}
+pub struct Decl { pub fields: Vec<u8> }
+pub struct ParseErr {}
+/// `parse_autosql(&autosql)` (ASSUMED contract: the declarations of the text, in order, each with its fields)
 #[verifier::external_body]
-pub fn schema_field_count(t: &Text) -> (r: Option<usize>)
-    ensures r == parsed_field_count(t.bytes()),
+pub fn parse_decls(t: &Text) -> (r: Result<Vec<Decl>, ParseErr>)
+    ensures
+        r is Ok <==> decl_counts(t.bytes()) is Some,
+        r matches Ok(v) ==> v@.len() == decl_counts(t.bytes())->Some_0.len()
+            && forall|i: int| 0 <= i < v@.len() ==> (#[trigger] v@[i]).fields@.len() == decl_counts(t.bytes())->Some_0[i],
 { unimplemented!() }
+// the labelled block `'field_count: { .. break 'field_count X; .. }` of write_pre (Verus has no labelled blocks): hoisted
+// MECHANICALLY into this function -- body = the block's text, `break 'field_count X` -> `return X`,
+// `parse_autosql(&autosql)` -> `parse_decls(autosql)`; write_pre below calls it where the block stood.
+//@extract method bigtools/src/bbi/bigbedwrite.rs write_pre "^impl<W: Write \+ Seek \+ Send \+ 'static> BigBedWrite<W>"
+//@presub /\A.*?\n([ \t]*)let field_count = 'field_count: \{(.*?)\n\1\};.*\Z/ => pub fn schema_field_count(autosql: &Text) -> Option<usize> {\2\n} min=1 count=1
+//@presub /break 'field_count ([^;]*);/ => return \1; min=0
+//@sub /parse_autosql\(&autosql\)/ => parse_decls(autosql) min=0
+//@ret r
+//@sig
+    ensures
+        [[L: bb/field_count_block/is_the_last_declarations_field_count]]
+        r == parsed_field_count(autosql.bytes()),
+//@end
 
 pub open spec fn has_nul(s: Seq<u8>) -> bool { exists|i: int| 0 <= i < s.len() && #[trigger] s[i] == 0u8 }
 /// `std::ffi::CString` / `NulError`
@@ -221,7 +247,7 @@ impl BigBedWrite {
 //@extract method bigtools/src/bbi/bigbedwrite.rs write_pre "^impl<W: Write \+ Seek \+ Send \+ 'static> BigBedWrite<W>"
 //@rule R3 min=3
 //@rule R8
-//@presub /'field_count: \{\s*let Ok\(mut declarations\) = parse_autosql\(&autosql\) else \{\s*break 'field_count None;\s*\};\s*let Some\(decl\) = declarations\.pop\(\) else \{\s*break 'field_count None;\s*\};\s*Some\(decl\.fields\.len\(\)\)\s*\};/ => schema_field_count(&autosql); min=1 count=1
+//@presub /\n([ \t]*)let field_count = 'field_count: \{.*?\n\1\};/ => \n\1let field_count = schema_field_count(&autosql); min=1 count=1
 //@presub /autosql\.unwrap_or_else\(\|\| crate::bed::autosql::BED3\.to_string\(\)\)/ => text_or_bed3(autosql) min=1 count=1
 //@presub /CString::new\(autosql\.into_bytes\(\)\)\.map_err\(\|_\| \{\s*ProcessDataError::InvalidInput\("Invalid autosql: null byte in string"\.to_owned\(\)\)\s*\}\)\?;/ => match CStr::new(autosql.into_bytes()) { Ok(c) => c, Err(_) => return Err(ProcessDataError::InvalidInput(Msg {})) }; min=1 count=1
 //@sub /file: &mut BufWriter<W>,\s*autosql: Option<String>,/ => file: &mut FSink, autosql: Option<Text>, min=1
